@@ -296,14 +296,14 @@ def to_driver_value(v):
 
 def wire(v):
     """Normal form for comparing a case value with what the driver prints: numbers without the internal text, function
-    values as the driver prints them (parameter names p0, p1, ... as the c16 op assigns them)."""
+    values as the driver prints them (parameter names q9, q8, ... as the c16 op assigns them)."""
     if isinstance(v, dict):
         if "n" in v:
             return {"n": v["n"]}
         if "N" in v:
             return None
         if "fn" in v:
-            return {"f": {"params": [["p%d" % i, show(from_case(p))] for i, p in enumerate(v["fn"]["params"])],
+            return {"f": {"params": [["q%d" % (9 - i), show(from_case(p))] for i, p in enumerate(v["fn"]["params"])],
                           "result": show(from_case(v["fn"]["result"]))}}
         if "f" in v:
             return {"f": {"params": [[p[0], p[1]] for p in v["f"]["params"]], "result": v["f"]["result"]}}
